@@ -105,7 +105,7 @@ func runC02(sh *core.Shard, a props.Args) {
 		c02Monitors(s)
 		s.Bootstrap(r.Intn(3) == 0)
 		p := c02Profile()
-		if r.Intn(a.Pick(16, 48)) == 0 {
+		if r.Intn(a.Pick(16, 128)) == 0 {
 			// (drawn from the case's own generator, so these expensive runs spread
 			// evenly over the shards)
 			// a large state: one owner publishes 130-430 keys (some deleted again)
@@ -167,7 +167,7 @@ func replayWith(mons func(*Sim)) func(json.RawMessage) (string, bool) {
 func init() {
 	props.Register(&props.Prop{
 		ID: "C02", Level: "exploration",
-		Rule: "seeded simulator runs of the real pkg/gossip code (N nodes, random local upserts/deletes/compactions/leave, gossip rounds, deliver/drop/duplicate/delay of any in-flight datagram, stream join/leave, packet size drawn per run; one run in 16 (thorough: in 48) starts with one owner publishing 130-430 keys at once so that observers have hundreds of its entries pending); oracle after every step over all (observer, owner) pairs: authenticity, completeness-at-version, monotone version, own state unchanged. A run is non-trivial when it contained >=1 truncated delta, >=1 relay application and >=1 delete learned only through a compaction marker; distinct = hash of (config, event counts, final states).",
+		Rule: "seeded simulator runs of the real pkg/gossip code (N nodes, random local upserts/deletes/compactions/leave, gossip rounds, deliver/drop/duplicate/delay of any in-flight datagram, stream join/leave, packet size drawn per run; one run in 16 (thorough: in 128) starts with one owner publishing 130-430 keys at once so that observers have hundreds of its entries pending); oracle after every step over all (observer, owner) pairs: authenticity, completeness-at-version, monotone version, own state unchanged. A run is non-trivial when it contained >=1 truncated delta, >=1 relay application and >=1 delete learned only through a compaction marker; distinct = hash of (config, event counts, final states).",
 		Assumptions: []string{
 			"sequentially consistent scheduler: one action at a time (true concurrency is C20's job)",
 			"expiry and liveness are disabled, as in the property's quantifier",
